@@ -117,7 +117,7 @@ func verifGenExpr(d int) string {
 
 func types_Quote(s string) string { return verifQuote(s) }
 
-// normalised structure: identifiers compared case-insensitively (lookups are
+// normalised structure: top-level references compared case-insensitively, lookup keys exactly (lookups are
 // case-insensitive), numbers by value rendering, text by value
 func verifNormDump(e Expression) string {
 	return verifDumpWith(e, true)
@@ -126,7 +126,7 @@ func verifNormDump(e Expression) string {
 // VerifC11_PrintReparse: for every expression generated over the full grammar
 // (depth ≤ 2 quick / 3 thorough on one spine) that parses: printing the tree
 // and parsing the printed text gives a structurally identical tree (same
-// operators, grouping, argument order; identifiers modulo case; literals by
+// operators, grouping, argument order; top-level references modulo case, lookup keys exactly; literals by
 // value), and printing is a fixed point after one round.
 // cover: binary, negation, call, lookup, anon-function, literal-escape
 func VerifC11_PrintReparse() {
